@@ -79,6 +79,36 @@ theorem common_plus_uncommon (w : Nat) (hw : 1 ≤ w) (ks : List K) :
   unfold TC.uncommonCount TC.commonCount
   omega
 
+/-- `get_uncommon_count()` is exactly "the sum of counts for keys that were culled" (its docstring):
+    the counts thrown away by all compactions so far (`culled`, a ghost the code never computes) -/
+theorem uncommon_eq_culled (w : Nat) (ks : List K) :
+    (reach w ks).uncommonCount = culled (TC.init w : TC K) ks := by
+  have h := addAll_common (TC.init w : TC K) ks
+  have ht := total_eq_additions w ks
+  simp only [reach] at ht
+  unfold TC.uncommonCount
+  simp only [reach, ht]
+  simp only [TC.commonCount, TC.init, List.map_nil, List.sum_nil, Nat.zero_add] at h ⊢
+  omega
+
+/-- `get_commonality()` is defined exactly when something was added, and then is a ratio in [0, 1]
+    whose complement is the uncommon share: `common / total` with `common ≤ total`,
+    `total - common = get_uncommon_count()` -/
+theorem commonality_spec (w : Nat) (hw : 1 ≤ w) (ks : List K) :
+    match (reach w ks).commonality with
+    | none => ks = []
+    | some (c, t) => 0 < t ∧ c ≤ t ∧ t = ks.length ∧ c = (reach w ks).commonCount
+        ∧ t - c = (reach w ks).uncommonCount := by
+  have ht := total_eq_additions w ks
+  have hc := common_plus_uncommon w hw ks
+  unfold TC.commonality
+  by_cases h0 : (reach w ks).total = 0
+  · simp only [h0, if_true]
+    rw [ht] at h0
+    exact List.length_eq_zero_iff.mp h0
+  · simp only [h0, if_false]
+    and_intros <;> first | exact ht | rfl | trivial | omega
+
 /-- no key is tracked twice -/
 theorem keys_nodup (w : Nat) (hw : 1 ≤ w) (ks : List K) : (reach w ks).keys.Nodup :=
   (inv_reach w hw ks).nodup
@@ -197,6 +227,10 @@ example : (reach 24 sizeWitness).len = 49 := by decide +kernel
 example : 24 * ((sizeWitness.length / 24 + 1).log2 + 1) = 72 := by decide +kernel
 -- … and it is attained: w = 1, one addition, one tracked key = 1 · (log2 2 + 1) - 1 … exactly w·1 for N < w
 example : (reach 3 [0, 1]).len = 2 ∧ 3 * (([0, 1].length / 3 + 1).log2 + 1) = 3 := by decide
+-- culled counts: the stream above loses 1 (key 1 twice... ) - total 7, common 3, uncommon 4 = culled
+example : ((reach 3 [0, 1, 1, 0, 2, 2, 0]).uncommonCount, culled (TC.init 3 : TC Nat) [0, 1, 1, 0, 2, 2, 0],
+           (reach 3 [0, 1, 1, 0, 2, 2, 0]).commonality) = (4, 4, some (3, 7)) := by decide
+example : (reach 3 ([] : List Nat)).commonality = none := by decide
 -- a key given positionally (3) and as a keyword (2) in ONE update call is counted 5 times
 example : ((TC.run 9 [Op.updateMapKw [(0, 3), (1, 1)] [(0, 2)]]).get 0,
            (TC.run 9 [Op.updateMapKw [(0, 3), (1, 1)] [(0, 2)]]).total) = (5, 6) := by decide
